@@ -1152,3 +1152,198 @@ def m_sat_arith(ex, callee, args):
     if isinstance(ovf, bool):
         return lim if ovf else val
     return BV(z3.If(ovf, to_z3bv(lim), to_z3bv(val)), a.ty)
+
+
+# ----------------------------------------------------------------------
+# more iterator adaptors / consumers
+
+def _drain(ex, it):
+    out = []
+    while True:
+        r = iter_next(ex, it)
+        if r.variant == 0:
+            return out
+        out.append(r.items[0])
+
+
+@model(r'^<.* as Iterator>::sum::<(usize|u64|i64|u32|i32|isize)>$')
+def m_iter_sum(ex, callee, args):
+    ty = re.search(r'sum::<(\w+)>', callee).group(1)
+    acc = mk_int(0, ty)
+    for x in _drain(ex, get_iter(args[0])):
+        x = deref_all(x)
+        r = ex.int_binop('AddWithOverflow', acc, x)
+        if not ex.branch(b_not(r.items[1])):
+            raise PanicEx(ex.frames[-1].fn.name, 'attempt to add with overflow (Iterator::sum)')
+        acc = r.items[0]
+    return acc
+
+
+@model(r'^<.* as Iterator>::count$')
+def m_iter_count(ex, callee, args):
+    return mk_int(len(_drain(ex, get_iter(args[0]))), 'usize')
+
+
+@model(r'^<.* as Iterator>::(any|all)::<')
+def m_iter_any_all(ex, callee, args):
+    is_any = '::any::<' in callee
+    it = get_iter(args[0])
+    while True:
+        r = iter_next(ex, it)
+        if r.variant == 0:
+            return not is_any
+        t = ex.branch(ex.call_closure(args[1], [r.items[0]]))
+        if is_any and t:
+            return True
+        if not is_any and not t:
+            return False
+
+
+@model(r'^<.* as Iterator>::(find|position)::<')
+def m_iter_find(ex, callee, args):
+    is_find = '::find::<' in callee
+    it = get_iter(args[0])
+    i = 0
+    while True:
+        r = iter_next(ex, it)
+        if r.variant == 0:
+            return none()
+        x = r.items[0]
+        arg = Ref(Cont([x]), 0) if is_find else x
+        if ex.branch(ex.call_closure(args[1], [arg])):
+            return some(x) if is_find else some(mk_int(i, 'usize'))
+        i += 1
+
+
+@model(r'^<.* as Iterator>::filter::<')
+def m_iter_filter(ex, callee, args):
+    return IterV('filter', get_iter(args[0]), 0, extra=args[1])
+
+
+def _filter_next(ex, it):
+    while True:
+        r = iter_next(ex, it.src)
+        if r.variant == 0:
+            return r
+        if ex.branch(ex.call_closure(it.extra, [Ref(Cont([r.items[0]]), 0)])):
+            return r
+
+
+ITER_KINDS['filter'] = _filter_next
+
+
+@model(r'^<.* as Iterator>::(rev|cloned|copied|fuse)$|^<.* as DoubleEndedIterator>::rev$')
+def m_iter_rev_cloned(ex, callee, args):
+    it = get_iter(args[0])
+    name = callee.rsplit('::', 1)[1]
+    if name == 'rev':
+        if it.kind not in ('slice', 'owned') or it.pos != 0:
+            raise Unsupported('rev() of iterator kind %s' % it.kind)
+        return IterV(it.kind, VecV(list(reversed(it.src.items))) if it.kind == 'owned' else _RevView(it.src), 0)
+    if name in ('cloned', 'copied'):
+        return IterV('deref', it, 0)
+    return it
+
+
+class _RevView(Cont):
+    """reversed view of a container for slice iteration (read-only)"""
+    __slots__ = ()
+
+    def __init__(self, src):
+        Cont.__init__(self, list(reversed(src.items)))
+
+
+def _deref_next(ex, it):
+    r = iter_next(ex, it.src)
+    if r.variant == 0:
+        return r
+    return some(clone_val(deref_all(r.items[0])))
+
+
+ITER_KINDS['deref'] = _deref_next
+
+
+@model(r'^<.* as Iterator>::(skip|take)$')
+def m_iter_skip_take(ex, callee, args):
+    it = get_iter(args[0])
+    n = args[1].v
+    if not isinstance(n, int):
+        raise Unsupported('skip/take with a symbolic count')
+    if callee.endswith('skip'):
+        for _ in range(n):
+            if iter_next(ex, it).variant == 0:
+                break
+        return it
+    return IterV('take', it, 0, extra=n)
+
+
+def _take_next(ex, it):
+    if it.pos >= it.extra:
+        return none()
+    it.pos += 1
+    return iter_next(ex, it.src)
+
+
+ITER_KINDS['take'] = _take_next
+
+
+@model(r'^<.* as Iterator>::zip::<')
+def m_iter_zip(ex, callee, args):
+    b = args[1]
+    try:
+        bi = get_iter(b)
+    except Unsupported:
+        bi = IterV('slice', vec_of(b))
+    return IterV('zip', (get_iter(args[0]), bi), 0)
+
+
+def _zip_next(ex, it):
+    a, b = it.src
+    x = iter_next(ex, a)
+    if x.variant == 0:
+        return x
+    y = iter_next(ex, b)
+    if y.variant == 0:
+        return y
+    return some(Tup([x.items[0], y.items[0]]))
+
+
+ITER_KINDS['zip'] = _zip_next
+
+
+@model(r'^<.* as Iterator>::chain::<')
+def m_iter_chain(ex, callee, args):
+    return IterV('chain', [get_iter(args[0]), get_iter(args[1])], 0)
+
+
+def _chain_next(ex, it):
+    while it.src:
+        r = iter_next(ex, it.src[0])
+        if r.variant == 1:
+            return r
+        it.src.pop(0)
+    return none()
+
+
+ITER_KINDS['chain'] = _chain_next
+
+
+@model(r'^<.* as Iterator>::last$')
+def m_iter_last(ex, callee, args):
+    xs = _drain(ex, get_iter(args[0]))
+    return some(xs[-1]) if xs else none()
+
+
+@model(r'^<.* as Iterator>::fold::<')
+def m_iter_fold(ex, callee, args):
+    acc = args[1]
+    for x in _drain(ex, get_iter(args[0])):
+        acc = ex.call_closure(args[2], [acc, x])
+    return acc
+
+
+@model(r'^<.* as Iterator>::for_each::<')
+def m_iter_for_each(ex, callee, args):
+    for x in _drain(ex, get_iter(args[0])):
+        ex.call_closure(args[1], [x])
+    return UNIT
